@@ -1,6 +1,6 @@
 (* Suite05.v -- correspondence suite 50 (C05): the number tables through their public
    conversions.  Input [kind; x; ...]; see run50 for the kinds. *)
-From CoapV Require Import Base Header Numbers Registry.
+From CoapV Require Import Base Header Packet Utf8 Numbers Registry Accessors.
 
 (* ---- Display for MessageClass ("c.dd") and Header::set_code, on ASCII codes ---- *)
 Definition digit (d : N) : N := 48 + d.
@@ -75,6 +75,9 @@ Definition run50 (s : list N) : list N :=
   | [8; x] => match observe_of x with Some o => [0; of_observe o] | None => [1] end
   | [9; v; x] => [vtt (set_version (mkHeader v Empty 0) x)]
   | [10; i] => match nth_opt i all_reqtypes with Some r => [req_to_byte r] | None => [999] end
+  | [11; x] => (* what the convenience readers CoapResponse::get_status / CoapRequest::get_method report for a code *)
+               let p := mkPacket (mkHeader 64 (class_dec x) 0) [] [] [] in
+               [resp_index (get_status p); req_to_byte (get_method p)]
   | _ => [999]
   end.
 
@@ -115,6 +118,11 @@ Definition spec50 (s : list N) : option (list N) :=
   | [10; i] => match nth_opt i all_reqtypes with
               | Some r => Some [match rlookup mclass_key (class_enc (Request r)) code_registry with Some b => b | None => 255 end]
               | None => None end
+  | [11; x] => (* a named status / method exactly for the registered response / request codes; every other byte, the
+                  UnKnown forms and every Reserved(b) form read as unknown (index 27 / byte 255), never as a named value *)
+               let c := if x <? 256 then registry_code x else Reserved 0 in
+               Some [match c with Response r => resp_index r | _ => 27 end;
+                     match c with Request r => req_to_byte r | _ => 255 end]
   | _ => None
   end.
 
@@ -131,6 +139,7 @@ Definition in_domain50 (s : list N) : bool :=
   | [8; x] => x <? U64
   | [9; v; x] => (v <? 256) && (x <? 256)
   | [10; i] => i <? 8
+  | [11; x] => (x <? 258) || ((512 <=? x) && (x <? 768))
   | _ => false
   end.
 
